@@ -78,11 +78,17 @@ impl Wake for TaskWaker {
         self.wake_by_ref()
     }
     fn wake_by_ref(self: &Arc<Self>) {
-        {
+        let pushed = {
             let mut r = self.shared.ready.lock().unwrap();
             if !r.contains(&self.id) {
                 r.push(self.id);
+                true
+            } else {
+                false
             }
+        };
+        if engine::active() {
+            engine::log("task-wake", self.id as u64, pushed as u64);
         }
         engine::wake(self.shared.tid);
     }
@@ -137,6 +143,11 @@ impl LocalExecutor {
     }
     pub fn run<T>(&self, fut: impl Future<Output = T>) -> T {
         let tid = engine::my_tid();
+        // futures_lite::future::race (used by the trackers) flips a fastrand coin: seed the
+        // thread-local generator from the run's entropy stream so that the coin is replayable
+        let mut seed = [0u8; 8];
+        aquatic_verif_rt::rng::fill(&mut seed);
+        fastrand::seed(u64::from_le_bytes(seed));
         let ex = Rc::new(Exec {
             shared: Arc::new(ExecShared { ready: Mutex::new(vec![0]), tid }),
             tasks: RefCell::new(vec![None]),
@@ -205,6 +216,8 @@ impl LocalExecutor {
             }
             local_ready.sort_unstable();
             let pick = engine::sched_rand(local_ready.len() as u64) as usize;
+            let mask = local_ready.iter().fold(0u64, |m, i| m | (1u64 << (*i % 64)));
+            engine::log("exec-pick", mask, pick as u64);
             let id = local_ready.remove(pick);
             ex.polls.set(ex.polls.get() + 1);
             if id == 0 {
